@@ -202,7 +202,7 @@ def b2i_forms(owner, x):
 
 
 UNMODELLED = (r'EACH\(_ in while ', r'loop-rebound\(', r'\.to_bytes\(', r'\.pop\(', r'\breduce\(', r'\bmethodcaller\(', r'\boperator\.\w+\(',
-              r'<raises ', r'\bstruct\.pack\(', r'EACH\((\$[\d.]+) in [^;]*\)(?: if [^;]*)?;\1\)')
+              r'<raises ', r'slice-assigned\(', r'\bstruct\.pack\(', r'EACH\((\$[\d.]+) in [^;]*\)(?: if [^;]*)?;\1\)')
 
 
 def unmodelled(text):
